@@ -1,6 +1,7 @@
 import Acra.Model.IENA
+import Acra.Lemmas.ReviewC09Loop
 namespace Acra.Props.C09
-open Acra.Py Acra.Model.IENA Acra.Gen.IENA
+open Acra.Py Acra.Model.IENA Acra.Gen.IENA Acra.Lemmas.ReviewC09
 
 /-- IENA (length check on, the default) accepts a buffer exactly when it holds a whole header and
     the size field (bytes 2..3, big-endian, in 16-bit words) equals the real length -/
@@ -28,6 +29,52 @@ theorem IENA_accepts_iff_nocheck (t : Base) (buf : Bytes) (hle : t.lengthError =
   · have h1 : 14 ≤ buf.length := by omega
     have h2 : buf.length - 2 + (2 + 0) ≤ buf.length := by omega
     simp [h, h1, h2]
+
+/-! ### review additions: both option values in one statement, payload exactness, witnesses -/
+
+/-- both values of the `lengthError` option in one statement (the two theorems above fix it by hypothesis) -/
+theorem IENA_accepts_iff_all (t : Base) (buf : Bytes) :
+    (Base.unpack t buf).2 = .ok () ↔
+      14 ≤ buf.length ∧ (t.lengthError = true → beNat (slice buf 2 4) * 2 = buf.length) := by
+  cases hle : t.lengthError
+  · simpa using IENA_accepts_iff_nocheck t buf hle
+  · simpa using IENA_accepts_iff t buf hle
+
+theorem IENA_accepted_payload_exact (t : Base) (buf : Bytes) (h : (Base.unpack t buf).2 = .ok ()) :
+    (Base.unpack t buf).1.payload = slice buf 14 (buf.length - 2) ∧
+    (Base.unpack t buf).1.payload.length = buf.length - 16 ∧
+    (Base.unpack t buf).1.size = beNat (slice buf 2 4) ∧
+    (Base.unpack t buf).1.lengthError = t.lengthError := by
+  have h14 := ((IENA_accepts_iff_all t buf).1 h).1
+  revert h
+  have hs : slice buf 2 4 = List.take 2 (List.drop 2 buf) := by
+    simp [slice, List.take_drop]
+  simp only [Base.unpack, IENA_HEADER_LENGTH, structUnpackFrom, IENA_HEADER_FORMAT, IENA_unpack_fmt0, Fmt.size,
+    codesSize, Code.size, unpackCodes, decInt, hs, Nat.zero_add, List.drop_zero]
+  have h : ¬ buf.length < 14 := by omega
+  have h2 : buf.length - 2 + (2 + 0) ≤ buf.length := by omega
+  simp only [h, h14, h2, if_false, if_true]
+  split
+  · simp
+  · intro _
+    refine ⟨rfl, ?_, rfl, rfl⟩
+    simp only [slice_length]; omega
+
+/-- witnesses (non-trivial header, 2-byte payload, trailer DE AD): size = 9 words = 18 bytes accepted; size 18 ≠ 9
+    rejected with the bare `Exception`; the same buffer accepted with the check switched off; 13 bytes rejected -/
+example : (Base.unpack Base.fresh ([0,1, 0,9, 0,0, 0,0,0,5, 0,0, 0,9] ++ [1,2] ++ [0xDE,0xAD])).2 = .ok () := by rfl
+example : (Base.unpack Base.fresh ([0,1, 0,9, 0,0, 0,0,0,5, 0,0, 0,9] ++ [1,2] ++ [0xDE,0xAD])).1.payload = [1,2] := by rfl
+example : (Base.unpack Base.fresh ([0,1, 0,18, 0,0, 0,0,0,5, 0,0, 0,9] ++ [1,2] ++ [0xDE,0xAD])).2 = .error .generic := by rfl
+example : (Base.unpack Base.fresh ([0,1, 0,10, 0,0, 0,0,0,5, 0,0, 0,9] ++ [1,2] ++ [0xDE,0xAD])).2 = .error .generic := by rfl
+example : (Base.unpack { Base.fresh with lengthError := false }
+    ([0,1, 0,18, 0,0, 0,0,0,5, 0,0, 0,9] ++ [1,2] ++ [0xDE,0xAD])).2 = .ok () := by rfl
+example : (Base.unpack Base.fresh [0,1, 0,9, 0,0, 0,0,0,5, 0,0, 0]).2 = .error .value := by rfl
+/-- observation (inside the property as stated: declared = real): the 2-byte trailer is not part of the 14-byte
+    minimum, so a 14-byte buffer declaring 7 words is accepted; its payload is empty and `endfield` is read from
+    bytes 12..13, which are also the sequence field -/
+example : (Base.unpack Base.fresh [0,1, 0,7, 0,0, 0,0,0,5, 0,0, 0,9]).2 = .ok () ∧
+    (Base.unpack Base.fresh [0,1, 0,7, 0,0, 0,0,0,5, 0,0, 0,9]).1.endfield = 9 ∧
+    (Base.unpack Base.fresh [0,1, 0,7, 0,0, 0,0,0,5, 0,0, 0,9]).1.sequence = 9 := ⟨rfl, rfl, rfl⟩
 
 /-- the dataset length a parameter header declares: big-endian 16 bits at bytes 4..5 -/
 def declaredM (rem : Bytes) : Nat := beNat (List.drop 4 (List.take 6 rem))
@@ -76,5 +123,119 @@ theorem IENAM_param_exact (rem : Bytes) (p : MParam) (n : Nat) (h : decM rem = .
       · simp [hodd]
       · have : d % 2 = 0 := by omega
         simp [this]
+
+/-- witnesses for the per-parameter step: accepted with exactly the declared 2 bytes (and the rest left alone);
+    declared 10 with 2 present rejected; declared 3 = present (odd, pad byte missing) accepted -/
+example : decM [0,3,0,4,0,2,101,102,7,7] = .ok ({ paramid := 3, delay := 4, dataset := [101,102] }, 8) := by rfl
+example : decM [0,3,0,4,0,10,101,102] = .error .generic := by rfl
+example : decM [0,3,0,4,0,3,101,102,103] = .ok ({ paramid := 3, delay := 4, dataset := [101,102,103] }, 10) := by rfl
+example : decM [0,3,0,4,0] = .error .struct := by rfl
+
+/-! ### review additions: the check at EVERY position of a multi-parameter packet -/
+
+/-- the IENA-M parameter area, read declaratively -/
+inductive FitsM : Bytes → Prop
+  | done : FitsM []
+  | param (rem : Bytes) : 6 ≤ rem.length → declaredM rem ≤ rem.length - 6 →
+      FitsM (rem.drop (6 + declaredM rem + declaredM rem % 2)) → FitsM rem
+
+theorem decM_pos (b : Bytes) (x : MParam) (n : Nat) (h : decM b = .ok (x, n)) : 0 < n ∧ 0 < b.length := by
+  have h1 := (IENAM_param_ok_iff b).1 ⟨x, n, h⟩
+  have h2 := IENAM_param_exact b x n h
+  omega
+
+theorem IENAM_walk_iff_fits (pl : Bytes) (off : Nat) :
+    (∃ ps, Walk decM moreRem pl off ps) ↔ FitsM (pl.drop off) := by
+  constructor
+  · rintro ⟨ps, hw⟩
+    induction ps generalizing off with
+    | nil =>
+      simp only [Walk, moreRem, decide_eq_false_iff_not] at hw
+      rw [List.drop_eq_nil_of_le (by omega)]; exact .done
+    | cons p ps ih =>
+      obtain ⟨_, n, hd, hw'⟩ := hw
+      have h1 := (IENAM_param_ok_iff _).1 ⟨p, n, hd⟩
+      have h2 := (IENAM_param_exact _ p n hd).2
+      refine .param _ h1.1 h1.2 ?_
+      rw [← h2, List.drop_drop]
+      exact ih _ hw'
+  · intro h
+    generalize hr : pl.drop off = rem at h
+    induction h generalizing off with
+    | done =>
+      refine ⟨[], ?_⟩
+      have : pl.length ≤ off := by
+        have := congrArg List.length hr; simp at this; omega
+      simp only [Walk, moreRem, decide_eq_false_iff_not]; omega
+    | param rem h6 hd _ ih =>
+      obtain ⟨p, n, hdec⟩ := (IENAM_param_ok_iff rem).2 ⟨h6, hd⟩
+      have hn := (IENAM_param_exact rem p n hdec).2
+      subst hr
+      obtain ⟨ps, hps⟩ := ih (off + n) (by rw [List.drop_drop, hn])
+      refine ⟨p :: ps, ?_, n, hdec, hps⟩
+      simp only [List.length_drop] at h6
+      simp only [moreRem, decide_eq_true_eq]; omega
+
+/-- IENA-M, whole packet: accepted exactly when the IENA frame is and the parameter area is a chain of
+    parameters each of whose declared dataset lies inside the bytes that remain AT ITS POSITION -/
+theorem IENAM_accepts_iff (t : MState) (buf : Bytes) :
+    (MState.unpack t buf).2 = .ok () ↔
+      (Base.unpack t.base buf).2 = .ok () ∧ FitsM (Base.unpack t.base buf).1.payload := by
+  simp only [MState.unpack]
+  cases hu : Base.unpack t.base buf with
+  | mk b' r =>
+    cases r with
+    | error e => simp
+    | ok u =>
+      simp only [true_and]
+      have key : (∃ ps, Walk decM moreRem b'.payload 0 ps) ↔ FitsM b'.payload := by
+        simpa using IENAM_walk_iff_fits b'.payload 0
+      rw [← key]
+      cases hd : decOff decM moreRem b'.payload (b'.payload.length + 1) 0 with
+      | ok ps =>
+        simp only [true_iff]
+        exact ⟨ps, (decOff_ok_iff_walk _ _ _ decM_pos ps).1 hd⟩
+      | error e =>
+        simp only [reduceCtorEq, false_iff]
+        rintro ⟨ps, hw⟩
+        rw [(decOff_ok_iff_walk _ _ _ decM_pos ps).2 hw] at hd
+        cases hd
+
+/-- … and every parameter it returns, at whatever position, has exactly the dataset length its header
+    declares, lying wholly inside the payload: nothing truncated, padded or partially returned -/
+theorem IENAM_accepted_every_param_exact (t : MState) (buf : Bytes) (h : (MState.unpack t buf).2 = .ok ()) :
+    ∀ p ∈ (MState.unpack t buf).1.parameters, ∃ o,
+      o + 6 + p.dataset.length ≤ (MState.unpack t buf).1.base.payload.length ∧
+      p.dataset.length = declaredM ((MState.unpack t buf).1.base.payload.drop o) := by
+  revert h
+  simp only [MState.unpack]
+  cases hu : Base.unpack t.base buf with
+  | mk b' r =>
+    cases r with
+    | error e => simp
+    | ok u =>
+      cases hd : decOff decM moreRem b'.payload (b'.payload.length + 1) 0 with
+      | error e => simp
+      | ok ps =>
+        intro _ p hp
+        obtain ⟨o, n, _, _, hdec⟩ := walk_mem _ _ _ _ _ (decOff_ok_walk _ _ _ _ _ _ hd) p hp
+        have h1 := (IENAM_param_ok_iff _).1 ⟨p, n, hdec⟩
+        have h2 := (IENAM_param_exact _ p n hdec).1
+        refine ⟨o, ?_, h2⟩
+        simp only [List.length_drop] at h1
+        show o + 6 + p.dataset.length ≤ b'.payload.length
+        omega
+
+/-- witnesses, whole packet (header declares 17 words = 34 bytes): two parameters `abcd`, `ef` accepted and
+    returned whole; the SECOND length forced to 10 (only 2 bytes remain; the whole payload holds 18, which is what
+    the code compared with before the D01 repair) rejected; the first forced to 13 (12 remain) rejected -/
+example : (MState.unpack MState.fresh ([0,1, 0,17, 0,0, 0,0,0,5, 0,0, 0,9] ++ [0,1,0,2,0,4,97,98,99,100] ++
+    [0,3,0,4,0,2,101,102] ++ [0xDE,0xAD])).2 = .ok () := by rfl
+example : (MState.unpack MState.fresh ([0,1, 0,17, 0,0, 0,0,0,5, 0,0, 0,9] ++ [0,1,0,2,0,4,97,98,99,100] ++
+    [0,3,0,4,0,2,101,102] ++ [0xDE,0xAD])).1.parameters.map (·.dataset) = [[97,98,99,100],[101,102]] := by rfl
+example : (MState.unpack MState.fresh ([0,1, 0,17, 0,0, 0,0,0,5, 0,0, 0,9] ++ [0,1,0,2,0,4,97,98,99,100] ++
+    [0,3,0,4,0,10,101,102] ++ [0xDE,0xAD])).2 = .error .generic := by rfl
+example : (MState.unpack MState.fresh ([0,1, 0,17, 0,0, 0,0,0,5, 0,0, 0,9] ++ [0,1,0,2,0,13,97,98,99,100] ++
+    [0,3,0,4,0,2,101,102] ++ [0xDE,0xAD])).2 = .error .generic := by rfl
 
 end Acra.Props.C09
